@@ -358,6 +358,62 @@ def install(bench):
 
 # --------------------------------------------------------------------------- recipe steps (Engine B)
 
+def self_check_plate_addresses(run, b, i, text, body, rstep, mb, ma, solvent, key, kid):
+    """'<amount> <unit> to [A1:A3, B2], ...': every well must be told exactly the amount it received."""
+    W = run.W
+    rows, cols = ma.rows, ma.cols
+    names = {}
+    for r, rl in enumerate(rows):
+        for c, cl in enumerate(cols):
+            names.setdefault(f"{rl}{cl}", []).append((r, c))
+    if any(len(v) > 1 for v in names.values()):
+        b.stats['instr:skipped'] += 1        # concatenated labels are ambiguous on this plate
+        return
+    told = {}
+    for shown, unit, addr in re.findall(NUM + r' (\S+) to \[([^\]]*)\]', body):
+        try:
+            mult, base = M.split_unit(unit)
+        except M.ModelError:
+            b.stats['instr:skipped'] += 1
+            return
+        for part in [x.strip() for x in addr.split(',') if x.strip()]:
+            ends = part.split(':')
+            if len(ends) > 2 or any(e not in names for e in ends):
+                b.stats['instr:skipped'] += 1
+                return
+            (r0, c0) = names[ends[0]][0]
+            (r1, c1) = names[ends[-1]][0]
+            for r in range(min(r0, r1), max(r0, r1) + 1):
+                for c in range(min(c0, c1), max(c0, c1) + 1):
+                    told.setdefault((r, c), []).append((F(shown), unit))
+    b.stats['instr:plate_addresses_checked'] += 1
+    d_default = None
+    for cell in ma.all_cells():
+        added = ma.well(cell).contents.get(solvent, F(0)) - mb.well(cell).contents.get(solvent, F(0))
+        entries = told.get(cell, [])
+        if len(entries) > 1:
+            b.V('C19', 'step_fill_addresses', key + ('plate', 'twice'),
+                f"step {i}: '{text[:200]}': well {rows[cell[0]]}{cols[cell[1]]} is told {len(entries)} different amounts", kid)
+            return
+        if entries:
+            shown, unit = entries[0]
+            mult, base = M.split_unit(unit)
+            exact = added * W.msubs[solvent].per_amount(base)
+            ok, _ = shown_ok(b, str(float(shown)) if False else repr(float(shown)), unit, exact, 40 * W.q_amt(solvent) * W.msubs[solvent].per_amount(base)
+                             + 2 * run.fill_slack(ma.well(cell), solvent) * W.msubs[solvent].per_amount(base))
+            if not ok:
+                b.V('C19', 'step_fill_addresses', key + ('plate', 'amount'),
+                    f"step {i}: '{text[:200]}': well {rows[cell[0]]}{cols[cell[1]]} is told {float(shown)} {unit} but received {float(exact / mult):.9g} {unit}", kid)
+                return
+        else:
+            # not listed: must have received (almost) nothing at the displayed precision
+            vol = added * W.msubs[solvent].per_amount('L')
+            if vol > F(1, 10 ** 6) * F(6, 10) and vol > 100 * W.q_amt(solvent) * W.msubs[solvent].per_amount('L'):
+                b.V('C19', 'step_fill_addresses', key + ('plate', 'missing'),
+                    f"step {i}: '{text[:200]}': well {rows[cell[0]]}{cols[cell[1]]} received {float(vol * 10 ** 6):.6g} uL but is not listed", kid)
+                return
+
+
 def check_recipe_instructions(run):
     """RecipeStep.instructions of a baked recipe vs the ledger."""
     W = run.W
@@ -416,6 +472,7 @@ def check_recipe_instructions(run):
                 if not m:
                     b.stats['instr:skipped'] += 1
                     continue
+                self_check_plate_addresses(run, b, i, text, m.group(4), R.steps[i], mb, ma, solvent, key, kid)
                 groups = re.findall(NUM + r' (\S+) to \[', m.group(4))
                 if not groups:
                     added_any = any(ma.well(cell).contents.get(solvent, F(0)) - mb.well(cell).contents.get(solvent, F(0)) > 100 * W.q_amt(solvent) for cell in ma.all_cells())
